@@ -645,6 +645,47 @@ def tof_bracket(ice, sol, p0, p1):
     return lower * (1 - 1e-12), upper * (1 + 1e-12)
 
 
+def uniform_tofs(ice, tracer, p0, p1):
+    """Times of flight of the straight-line tracer's rays in uniform ice by the image-source construction
+    (independent of the tracer's points): a ray with r reflections starting upward / downward travels the
+    vertical distance D = first leg + (r - 1) * thickness + last leg, its length is sqrt(rho^2 + D^2) and
+    tof = n * length / c.  Same enumeration order and admission rules as uniform_count."""
+    import scipy.constants
+    zmin, zmax = float(ice.valid_range[0]), float(ice.valid_range[1])
+    z0, z1 = float(p0[2]), float(p1[2])
+    if not (zmin <= z0 <= zmax and zmin <= z1 <= zmax):
+        return []
+    rho2 = float(p1[0] - p0[0]) ** 2 + float(p1[1] - p0[1]) ** 2
+    n = float(ice.index(0.5 * (zmin + zmax)))
+    out = [n * np.sqrt(rho2 + (z1 - z0) ** 2) / scipy.constants.c]
+    above, below = ice._index_above is not None, ice._index_below is not None
+    for r in range(1, int(getattr(tracer, "max_reflections", 0)) + 1):
+        for first_up in (True, False):
+            uses_above = first_up if r == 1 else True
+            uses_below = (not first_up) if r == 1 else True
+            if not ((above or not uses_above) and (below or not uses_below)):
+                continue
+            last_up = first_up if r % 2 == 0 else not first_up      # direction of the last leg
+            D = ((zmax - z0) if first_up else (z0 - zmin)) + (r - 1) * (zmax - zmin) + \
+                ((z1 - zmin) if last_up else (zmax - z1))
+            out.append(n * np.sqrt(rho2 + D * D) / scipy.constants.c)
+    return out
+
+
+def polyline_tof(ice, sol):
+    """integral of n ds / c along the REPORTED ray of a piecewise-uniform ice model: the ray is the polyline
+    sol.coordinates, the index is constant on each segment (taken at its midpoint)"""
+    import scipy.constants
+    xs, ys, zs = (np.asarray(v, dtype=float) for v in sol.coordinates)
+    pts = np.column_stack([xs, ys, zs])
+    total = 0.0
+    for a, b in zip(pts[:-1], pts[1:]):
+        seg = float(np.sqrt(np.sum((b - a) ** 2)))
+        if seg > 0:
+            total += float(ice.index(0.5 * (a[2] + b[2]))) * seg
+    return total / scipy.constants.c
+
+
 def run_cell(cell, seed, tmpdir, case=None):
     """Run one cell of the real component matrix (two events) with its own PRNG; returns
     (stats, failure-or-None) where failure = (what, description)."""
@@ -664,15 +705,32 @@ def run_cell(cell, seed, tmpdir, case=None):
         # FunctionSignal.__add__ deep-copies the propagation filters, which for the layered
         # tracer drags the whole path/tracer object graph along (seconds per received pulse):
         # the layered cells are kept to one single-particle event on two antennas
-        light = tn == "Layered"
+        uni_refl = rng.choice([0, 1, 1, 2]) if tn == "Uniform" else 0
+        light = tn == "Layered" or uni_refl >= 1      # reflected uniform paths: same copying cost
         ant_pos = [(0, 0, -150), (40, 10, -60), (-30, 5, -300)][:2 if light else 3]
         if tn == "Layered" and rng.random() < 0.6:
             # an antenna exactly on the boundary between the two layers
             ant_pos[1] = (40, 10, float(ice.layers[0].valid_range[0]))
-        if tn in ("Specialized", "Basic") and rng.random() < 0.5:
-            ant_pos[-1] = (-30, 5, -rng.uniform(780, 950))
         bounds = ()
+        if tn in ("Specialized", "Basic"):
+            r = rng.random()
+            if r < 0.4:
+                ant_pos[-1] = (-30, 5, -rng.uniform(780, 950))
+            elif r < 0.75:
+                # a shallower ice sheet with an antenna frozen to the bed: endpoints exactly on the lower
+                # bound of the ice model's valid range (vertices on the bed come from make_generator)
+                from pyrex.ice_model import AntarcticIce
+                ice = AntarcticIce(valid_range=(-500, 0))
+                bounds = (-500.0,)
+                if rng.random() < 0.6:
+                    ant_pos[-1] = (-30, 5, -500.0)
         if tn == "Uniform":
+            # reflections off the surface / the bed (max_reflections 0..2), with and without a reflecting bed
+            from pyrex.ice_model import UniformIce
+            ice = UniformIce(1.5, valid_range=(-rng.choice([2850, 600]), 0), index_above=1,
+                             index_below=rng.choice([None, 2.0]))
+            tr = type("UniformRayTracer%d" % 0, (tr,), {"max_reflections": uni_refl})
+            desc["max_reflections"] = tr.max_reflections
             bounds = (float(ice.valid_range[0]),)
         elif tn == "Layered":
             bounds = (float(ice.layers[-1].valid_range[0]),)
@@ -778,6 +836,24 @@ def run_cell(cell, seed, tmpdir, case=None):
                                     np.allclose(sols[j1].received_direction, sols[j2].received_direction, rtol=0, atol=1e-9)):
                                 bad = "%s: the same ray (tof %r, same directions) is listed twice among %d solutions" % (geo, sols[j1].tof, len(sols))
                     want = None
+                    if tn in ("Uniform", "Layered"):
+                        # piecewise-uniform ice: tof must be the integral of n ds / c along the reported ray
+                        # (fewer than 100 rounded operations: 1e-12 relative covers the rounding)
+                        for sol in sols:
+                            want_t = polyline_tof(ice, sol)
+                            stats["tof_polyline"] = stats.get("tof_polyline", 0) + 1
+                            if abs(sol.tof - want_t) > 1e-12 * want_t and not bad:
+                                bad = ("%s: time of flight %.9e s of a reported ray, but n ds / c along that ray "
+                                       "(its own coordinates) is %.9e s" % (geo, sol.tof, want_t))
+                    if tn == "Uniform":
+                        want_ts = sorted(uniform_tofs(ice, tr, p.vertex, a.position))
+                        got_ts = sorted(float(x.tof) for x in sols)
+                        if len(want_ts) == len(got_ts) and not bad:
+                            for g_t, w_t in zip(got_ts, want_ts):
+                                if abs(g_t - w_t) > 1e-12 * w_t:
+                                    bad = ("%s: times of flight %s, the image-source construction gives %s" % (
+                                        geo, ["%.9e" % x for x in got_ts], ["%.9e" % x for x in want_ts]))
+                                    break
                     if tn in ("Specialized", "Basic"):
                         # "delayed by that solution's time of flight": the delay must be physically possible
                         for sol in sols:
@@ -790,7 +866,11 @@ def run_cell(cell, seed, tmpdir, case=None):
                                                geo, sol.tof, br[0], br[1]))
                         if len(sols) not in (0, 2):
                             bad = "%s: %d ray solutions (the depth-dependent tracers have none or two)" % (geo, len(sols))
-                        want = snell_count(ice, p.vertex, a.position)
+                        zr = [float(v) for v in ice.valid_range]
+                        if all(zr[0] <= float(z) <= zr[1] for z in (p.vertex[2], a.position[2])):
+                            want = snell_count(ice, p.vertex, a.position)
+                        else:
+                            want = 0          # an endpoint outside the CLOSED valid range of the ice model
                     elif tn == "Layered":
                         want = layered_count(ice, p.vertex, a.position)
                     elif tn == "Uniform":
